@@ -278,6 +278,10 @@ func splitDebVersion(v string) (epoch int64, upstream, revision string, err erro
 	}
 	if i := strings.LastIndexByte(v, '-'); i >= 0 {
 		upstream, revision = v[:i], v[i+1:]
+		if revision == "" {
+			// dpkg's parseversion: "revision number cannot be empty" - such a string has no place in dpkg's order
+			return 0, "", "", fmt.Errorf("version %q: revision number is empty (dpkg refuses it)", v)
+		}
 	} else {
 		upstream = v
 	}
